@@ -9,6 +9,7 @@ import os
 import sys
 import uuid
 from collections.abc import Mapping, Sequence
+from threading import RLock
 from typing import Callable, FrozenSet
 from typing import Sequence as Sequence_t
 
@@ -218,15 +219,16 @@ class JSONCollection(SyncedCollection):
 
     @filename.setter
     def filename(self, value):
-        # When setting the filename we must also remap the locks.
+        # When setting the filename we must also make sure a lock exists for
+        # the new file. The lock of the old file stays in place because other
+        # collections may still be bound to that file.
         with self._thread_lock:
-            if type(self)._threading_support_is_active:
-                old_lock_id = self._lock_id
-
             self._filename = value
 
             if type(self)._threading_support_is_active:
-                type(self)._locks[self._lock_id] = type(self)._locks.pop(old_lock_id)
+                with type(self)._cls_lock:
+                    if self._lock_id not in type(self)._locks:
+                        type(self)._locks[self._lock_id] = RLock()
 
     @property
     def _lock_id(self):
